@@ -178,7 +178,7 @@ func (fr *frame) execInstr(ins ssa.Instruction, st *State, reach *string) bool {
 			vals[i].T = fr.fn.Signature.Results().At(i).Type()
 		}
 		if fr.top {
-			fr.checkPost(x, vals, st, *reach)
+			fr.ex.returnReach = append(fr.ex.returnReach, *reach)
 		}
 		fr.rets = append(fr.rets, retPoint{reach: *reach, vals: vals, st: st})
 		return true
